@@ -57,7 +57,7 @@ UNIT = dict(
     sabotage=[
         dict(name='pass_skips_operation_done', quick=True, target='combining_pass', lit='operation_done( *p );', to=';', count=1, groups=['combining_pass'], expect_fail=r'C23\.'),
         dict(name='pass_applies_inactive', target='combining_pass', lit='case inactive:\n                        break;', to='case inactive:', count=1, groups=['combining_pass'], expect_fail=r'C23\.'),
-        dict(name='response_before_apply', quick=True, target='combining_pass', re=r'owner\.fc_apply\( static_cast<publication_record_type\*>\( p \)\);\s*operation_done\( \*p \);', to='operation_done( *p ); owner.fc_apply( static_cast<publication_record_type*>( p ));', count=1,
+        dict(name='response_before_apply', target='combining_pass', re=r'owner\.fc_apply\( static_cast<publication_record_type\*>\( p \)\);\s*operation_done\( \*p \);', to='operation_done( *p ); owner.fc_apply( static_cast<publication_record_type*>( p ));', count=1,
              groups=['combining_pass'], expect_fail=r'C23\.response_after_execution|C23\.apply_only_pending'),
         dict(name='waiter_returns_without_response', target='wait_for_combining', lit='while ( pRec->op( memory_model::memory_order_acquire ) != req_Response ) {', to='while ( pRec->op( memory_model::memory_order_acquire ) == req_EmptyRecord ) {', count=1,
              groups=['try_combining'], expect_fail=r'C23\.'),
@@ -70,8 +70,10 @@ UNIT = dict(
     assumptions=['BOUNDED: list of <= 4 records, <= 2 passes, interference budget 2', 'batch_combine / try_batch_combining / iterators are not covered (same structure as combine / try_combining)'],
     dropped=['template class context; member-template headers of try_combining/combining/combining_pass/combine written by the shell with Container = the shell owner', 'statistics (empty policy)'],
     groups=[
-        G('combining_pass', 'h_combining_pass', [r'C23\.apply_only_pending', r'C23\.response_after_execution', r'C23\.pass_executes_all_pending', r'C23\.pass_touches_nothing_else'],
-          ['kernel::combining_pass', 'kernel::combining', 'kernel::operation_done']),
+        dict(G('combining_pass', 'h_combining_pass', [r'C23\.apply_only_pending', r'C23\.response_after_execution', r'C23\.pass_executes_all_pending', r'C23\.pass_touches_nothing_else'],
+               ['kernel::combining_pass', 'kernel::operation_done'], bounded='one combining_pass over the head record plus <= 3 records (each present or not, state and request symbolic); interference budget 2')),
+        dict(G('combining', 'h_combining_pass', [r'C23\.apply_only_pending', r'C23\.response_after_execution', r'C23\.pass_executes_all_pending', r'C23\.pass_touches_nothing_else'],
+               ['kernel::combining', 'kernel::combining_pass', 'kernel::operation_done'], tier='thorough', timeout=7200), defines=['VX_WHOLE', 'VX_PASSES_MAX=2']),
         G('try_combining', 'h_try_combining', [r'C23\.request_executed_exactly_once', r'C23\.mutex_released', r'C23\.apply_only_under_mutex'],
           ['kernel::combine', 'kernel::try_combining', 'kernel::wait_for_combining', 'kernel::combining', 'kernel::combining_pass', 'kernel::republish', 'kernel::publish'], unwind=6,
           bounded='head record plus <= 2 records, one combining pass, interference budget 2, the other combiner finishes its pass by the second wait of the caller (other combiner executes / compacts the caller away / releases; another thread takes the mutex first)'),
